@@ -103,7 +103,8 @@ def write_cfg(path, spec='Spec', constants=None, invariants=(), properties=(), v
 
 
 def tlc_cmd(module, cfg, metadir, workers=8, extra=(), xmx='12g', jvm=()):
-    return ['java', '-XX:+UseParallelGC', '-Xmx' + xmx] + list(jvm) + ['-cp', JAVA_CP, 'tlc2.TLC', '-workers', str(workers),
+    # TLC unpacks its standard modules into java.io.tmpdir: keep that inside the (removed afterwards) metadir, nothing of ours lives in /tmp
+    return ['java', '-XX:+UseParallelGC', '-Xmx' + xmx, '-Djava.io.tmpdir=' + metadir] + list(jvm) + ['-cp', JAVA_CP, 'tlc2.TLC', '-workers', str(workers),
             '-metadir', metadir, '-cleanup', '-noGenerateSpecTE', '-config', cfg] + list(extra) + [module]
 
 
@@ -368,6 +369,8 @@ def main(argv):
                 r = subprocess.run([binpath('tworun'), '--one', rest[0]], cwd=ROOT)
             elif kind == 'overlay':
                 r = subprocess.run([binpath('overlay'), '--one', rest[0]], cwd=ROOT)
+            elif kind == 'insttrace':
+                return props.replay_insttrace(rest[0])
             elif kind in ('mismatch', 'predicate', None):
                 r = subprocess.run([binpath('replay'), '--one', rest[0]], cwd=ROOT)
             else:
